@@ -348,6 +348,12 @@ func evalC15Built(v *engine.Verdict, c *engine.Case, x *C15Case) {
 				v.Failf("call %d (built=%v) panicked: %s", k, built, o.Panic)
 				return "", nil
 			}
+			// what the function produced must reach downstream consumers
+			// under the label it was produced under
+			if msg := engine.CheckBindings(w, o.Events); msg != "" {
+				v.Failf("call %d (built=%v): %s", k, built, msg)
+				return "", nil
+			}
 			r := fmt.Sprintf("len=%d err=%v", o.Len, o.Err != nil)
 			if fe, ok := o.Err.(*engine.FailErr); ok {
 				r += fmt.Sprintf(" failerr=f%d", fe.Func)
@@ -499,6 +505,40 @@ func genC15(g engine.G) *engine.Case {
 			mid.Out = append(mid.Out, l)
 			if i == 0 || g.Bool() {
 				tgt.In = append(tgt.In, l)
+			}
+		}
+		if g.Pct(30) {
+			// f1 produces a named AND a type-only value of the same type and
+			// subtype (named one declared first or second); the target takes
+			// the type-only one through a parameter with another name (the
+			// only route: names differ, so the named output cannot feed it)
+			t := perm[2]
+			sub := ""
+			if g.Pct(40) {
+				sub = engine.Pick(g, engine.AllSubs)
+			}
+			named := engine.Label{Name: "a", Type: t, Dyn: t, Sub: sub}
+			typed := engine.Label{Type: t, Dyn: t, Sub: sub}
+			if g.Bool() {
+				mid.Out = []engine.Label{named, typed}
+			} else {
+				mid.Out = []engine.Label{typed, named}
+			}
+			tgt.In = []engine.Label{{Name: "zz", Type: t, Dyn: t}}
+			if sub != "" {
+				// a named parameter without subtype cannot take a typed value that
+				// carries one; use a type-only parameter of that subtype instead
+				tgt.In = []engine.Label{{Type: t, Dyn: t, Sub: sub}}
+				mid.Out = []engine.Label{{Name: "a", Type: t, Dyn: t, Sub: ""}, typed}
+			}
+			for i := range mid.In {
+				if mid.In[i].Named() {
+					mid.In[i].Name = fmt.Sprintf("q%d", i) // distinct, and neither "a" nor "zz"
+				}
+			}
+			sc.Inputs = nil
+			for i, l := range mid.In {
+				sc.Inputs = append(sc.Inputs, engine.Input{L: l, Tok: i + 1})
 			}
 		}
 		// an extra directly supplied parameter for the target
